@@ -213,6 +213,10 @@ PROP = Prop(
     P, level="exploration", rule=RULE,
     layers=[Layer("multiplexing", stall_is_violation=True, strategy=scenarios, execute=execute, budget={"quick": 2500, "thorough": 120000}),
             Layer("pool-histories", strategy=pool_history_scenarios, execute=execute_pool_history, budget={"quick": 1600, "thorough": 60000}),
+            # enumerated: the victim is cancelled at EVERY suspension point while a sibling's exchange runs on the same connection (C01's layer, judged
+            # for C12): the sibling must not end with the victim's cancellation
+            Layer("cancel-with-sibling", cases=__import__("vf.props.c01x", fromlist=["cancel_cases_h2"]).cancel_cases_h2,
+                  execute=__import__("vf.props.c01x", fromlist=["execute_cancel_c12"]).execute_cancel_c12),
             # the general concurrent histories (faults, one cancelled caller, peer actions) restricted to HTTP/2 kinds and judged for C12: a caller
             # that nobody cancelled must not end with a cancellation that belonged to a sibling
             Layer("disturbed-histories", strategy=lambda: __import__("vf.props.conc", fromlist=["scenarios"]).scenarios(kinds=["direct-h2", "prior-h2", "tunnel-h2", "socks-auth-tls-h2"]),
